@@ -341,6 +341,15 @@ extern "C" int sim_os_open(const char *path) {
     (void)path;
     os_enter(t);
     int el = c.os_terminal >= 0 ? -1 : os_next_el(t, true);
+    if (c.os_terminal > 0 && c.op && ((c.op->dseed >> 9) & 1)) {
+        // an open() made after the primary OS call has already failed for good (a fallback path of the tree): it may fail
+        // as well, with an errno of its own. The request has failed either way, so no expectation changes.
+        static const int O[] = {EMFILE, ENOENT, EACCES, ENFILE};
+        bump(w, CT_F_OS_OPENFAIL);
+        c.os_extra++;
+        errno = O[(c.op->dseed >> 10) & 3];
+        return -1;
+    }
     if (el >= 1000) {
         bump(w, CT_F_OS_OPENFAIL);
         os_terminal(t, el - 1000);
